@@ -423,10 +423,10 @@ Example C18_ex_occupancy_threshold :
   n_residuals (rows 14%nat) 6 = O.
 Proof. vm_compute. repeat split. Qed.
 (* the rule as the code evaluates it (binary64 division and comparison) and the rule over exact rationals give the same
-   flag at the default threshold for every count up to 400 residuals per hour of week (a year of data has 53); an
+   flag at the default threshold for every count up to 250 residuals per hour of week (a year of data has 53); an
    Example rather than a Theorem because its proof computes with primitive floats, which Print Assumptions lists.
    For other thresholds the two can differ inside the rounding band: 14 of 20 is not above the double nearest 0.7 *)
-Example C18_ex_occupancy_float_rule_agrees : forall n p, (n <= 400)%nat -> (p <= n)%nat ->
+Example C18_ex_occupancy_float_rule_agrees : forall n p, (n <= 250)%nat -> (p <= n)%nat ->
   flag_f default_occupancy_threshold_f p n = flag_q default_occupancy_threshold p n.
 Proof. exact occupancy_float_rule_agrees_l. Qed.
 Example C18_ex_default_threshold_same_number : Q2F default_occupancy_threshold = default_occupancy_threshold_f.
